@@ -205,6 +205,9 @@ impl<'a> Tr<'a> {
     /// Is `a` the function's reader passed on to a callee (`reader` for a `&mut` parameter, `&mut reader` for an
     /// owned one)?
     pub(crate) fn is_reader_arg(&self, a: &Expr) -> bool {
+        if self.reader_self.is_some() {
+            return self.t6r2_is_self_reader(a);
+        }
         if self.reader.is_none() {
             return false;
         }
@@ -320,6 +323,17 @@ impl<'a> Tr<'a> {
             "len" if is_vec && m.args.is_empty() => {
                 let recv = self.expr(&m.receiver)?;
                 Ok(Some(format!("(Rs.Vec.len {recv})")))
+            }
+            "get" if is_vec && m.args.len() == 1 => {
+                let recv = self.expr(&m.receiver)?;
+                self.expect = Some("UInt64".into());
+                let i = self.expr(&m.args[0])?;
+                Ok(Some(format!("(Rs.Vec.get {recv} {i})")))
+            }
+            "get" if is_map && m.args.len() == 1 => {
+                let recv = self.expr(&m.receiver)?;
+                let k = self.expr(&m.args[0])?;
+                Ok(Some(format!("(Rs.HashMap.get {recv} {k})")))
             }
             "push" if is_vec && m.args.len() == 1 => {
                 let v = local.ok_or("push on something that is not a local `mut` vector")?;
